@@ -399,7 +399,11 @@ func Gen(prop, tier string, seed uint64) *kernel.Plan {
 			evs = append(evs, Ev{T: "parpatch", A: a, K: k, S: g.U64() % 100000})
 		}
 		if (prop == "C05" || prop == "C06" || prop == "C08" || prop == "C07") && g.Chance(1, 40) {
-			evs = append(evs, Ev{T: "burst", A: a, D: g.Intn(3), N: g.Intn(150)})
+			b := Ev{T: "burst", A: a, D: g.Intn(3), N: g.Intn(150)}
+			if g.Chance(1, 8) {
+				b.N = 1000 + g.Intn(150)
+			}
+			evs = append(evs, b)
 		}
 		if g.Chance(1, 25) {
 			// late subscriber
